@@ -1,1 +1,61 @@
-(* placeholder *)
+(* C14 — controls survive encode and decode unchanged (request direction:
+   Encode -> wire -> gldap's decodeControl), and the Behera constructor.
+   ONLY statements.  [norm_control] is the identity on every control except a
+   Behera control with several fields set (Encode carries only the first of
+   grace / expire / error that is set; the constructor never builds such a
+   control, C14_behera_ctor).  [wf_ctrl]: page size < 2^32, Behera fields in
+   range with error 0..8, int64 expiry, generic OID not one of the eight typed
+   OIDs, encoding below 2^31 bytes.  The response direction (an independent
+   client decoding Bind / SearchDone controls) is C04_controls + the go-ldap
+   run of the correspondence check. *)
+From G Require Import Base Ber Ldap LdapProofs LdapRoundTrip.
+Open Scope N_scope.
+
+Theorem C14_request_dir : forall prim_ok strict c, wf_ctrl c = true ->
+  decode_control prim_ok strict (encode_control c) = Ok (norm_control c).
+Proof. exact decode_encode_control. Qed.
+Print Assumptions C14_request_dir.
+
+(* any number and order of controls on one message, through the wire *)
+Theorem C14_many : forall prim_ok strict id dn cs, int64_ok id = true -> forallb wf_ctrl cs = true ->
+  N.of_nat (length (wire (RDel id dn cs))) <= 2147483647 ->
+  server_receive prim_ok strict true (wire (RDel id dn cs)) = Ok (MDel id dn (map norm_control cs)).
+Proof.
+  intros prim_ok strict id dn cs Hid Hcs Hsz.
+  apply (server_receive_wire prim_ok strict (RDel id dn cs)).
+  unfold wf_request. apply andb_true_iff. split; [apply N.leb_le; exact Hsz|].
+  apply andb_true_iff. split; assumption.
+Qed.
+Print Assumptions C14_many.
+
+Theorem C14_norm_identity : forall c, (forall e g err, c <> CBehera e g err) -> norm_control c = c.
+Proof. intros c H. destruct c; try reflexivity. exfalso. eapply H. reflexivity. Qed.
+Print Assumptions C14_norm_identity.
+
+Theorem C14_behera_ctor : forall g e c ctl, new_behera g e c = Ok ctl ->
+  exists e' g' c', ctl = CBehera e' g' c' /\
+    ((e' = -1 /\ g' = -1) \/ (e' = -1 /\ c' = -1) \/ (g' = -1 /\ c' = -1))%Z /\ (c' <= 8)%Z.
+Proof. exact new_behera_at_most_one. Qed.
+Print Assumptions C14_behera_ctor.
+
+Theorem C14_behera_rejects : forall g e c, 8 < c -> new_behera g e (Some c) = Err.
+Proof. exact new_behera_rejects. Qed.
+Print Assumptions C14_behera_rejects.
+
+(* a control the constructor accepts is a fixed point of norm (nothing is lost) *)
+Theorem C14_behera_ctor_norm : forall g e c ctl, new_behera g e c = Ok ctl ->
+  (forall e' g' c', ctl = CBehera e' g' c' -> (-1 <= e')%Z -> (-1 <= g')%Z -> (-1 <= c')%Z -> norm_control ctl = ctl).
+Proof.
+  intros g e c ctl H e' g' c' -> He Hg Hc.
+  destruct (new_behera_at_most_one g e c _ H) as (e2 & g2 & c2 & Heq & Hone & _).
+  inversion Heq; subst e2 g2 c2. cbn [norm_control].
+  destruct (0 <=? g')%Z eqn:?; destruct (0 <=? e')%Z eqn:?; destruct (0 <=? c')%Z eqn:?;
+    destruct Hone as [[? ?]|[[? ?]|[? ?]]]; subst; try reflexivity; try lia;
+    repeat f_equal; lia.
+Qed.
+Print Assumptions C14_behera_ctor_norm.
+
+(* the pinned conversion wrapped huge error codes into accepted ones *)
+Theorem C14_behera_wrap_refuted : (wrap_uint_to_int (2 ^ 64 - 2) = -2)%Z /\ (wrap_uint_to_int (2 ^ 63) <= 8)%Z.
+Proof. exact new_behera_wrap_refuted. Qed.
+Print Assumptions C14_behera_wrap_refuted.
